@@ -49,7 +49,7 @@ ASSUMPTIONS = ["within one append to a partitioned dataset row order is not comp
                "the model rows are the canonical cells of the frames handed to fastparquet.write (pandas trusted)"]
 
 FRAMES = ["three", "one", "zero", "nulls", "cat_new", "cat_subset"]
-SMALL_FRAMES = FRAMES + ["cat_wide"]
+SMALL_FRAMES = FRAMES + ["cat_wide", "cat_mid"]
 COLS = ("a", "s", "c", "p", "q", "f", "t", "b", "i")        # wide schema
 NARROW = COLS[:4]
 WIDE = ["L%03d" % i for i in range(126)] + ["u", "v"]          # 128 labels: one more than int8 codes can address
@@ -107,6 +107,9 @@ def operations():
 
 def special_operations():
     return [{"frame": "cat_wide", "rgo": None, "comp": None},
+            # 70 labels that differ from batch to batch but have the same count and the same encoded size: two such
+            # batches overflow int8 codes only together
+            {"frame": "cat_mid", "rgo": None, "comp": None},
             {"frame": "permuted", "rgo": None, "comp": None},
             {"frame": "three", "rgo": [0, 1], "comp": None},
             {"frame": "three", "rgo": [0, 3], "comp": None},       # the last chunk is empty
@@ -123,9 +126,9 @@ def alphabet(init, level, tier):
     if level == 1 or (tier == "thorough" and level == 2):
         return operations() + special_operations()
     if tier == "thorough":
-        return operations() + special_operations()[:1]
+        return operations() + special_operations()[:2]
     # deeper levels of the quick tier: the uncompressed base alphabet and the wide categorical
-    return [o for o in operations() if not o["comp"]] + special_operations()[:1]
+    return [o for o in operations() if not o["comp"]] + special_operations()[:2]
 
 
 def explore(run, tier):
@@ -169,7 +172,7 @@ def crash_sig(point, res):
     s = dict(point["init"])
     s["symptom"] = res["outcome"]
     s["frames"] = ",".join(o["frame"] for o in point["hist"])
-    s["cat_sets_differ"] = any(o["frame"] in ("cat_new", "cat_subset", "cat_wide") for o in point["hist"])
+    s["cat_sets_differ"] = any(o["frame"] in ("cat_new", "cat_subset", "cat_wide", "cat_mid") for o in point["hist"])
     return s
 
 
@@ -189,6 +192,7 @@ def _rows(name):
             "cat_new": [(7, "n", "NEW", 1, "x", 7.5, 14, True, 7), (8, "m", "u", 3, "z", 8.5, 15, False, 8)],
             "cat_subset": [(9, "k", "v", 2, "y", 9.5, 16, True, 9), (10, "j", "v", 2, "y", 10.5, 17, True, 10)],
             "cat_wide": [(11, "g", "L000", 1, "x", 11.5, 18, False, 11), (12, "h", "u", 2, "y", 12.5, 19, True, 12)],
+            "cat_mid": [(15, "d", "MID0", 1, "x", 15.5, 21, True, 15), (16, "c", "v", 2, "y", 16.5, 22, False, 16)],
             "permuted": [(13, "e", "v", 2, "x", 13.5, 20, True, 13), (14, None, "u", 1, "y", None, None, False, None)],
             "initial": [(0, "i0", "u", 1, "x", 0.5, 0, True, 0), (-1, "i1", "v", 2, "y", None, 1, False, None),
                         (-2, None, "u", 1, "y", -2.5, None, True, -2), (-3, "i3", "v", 1, "x", 1e300, 3, False, 2 ** 40)],
@@ -202,6 +206,9 @@ def frame(name, widx, base_id, wide=False):
     from mc import oracles as O
     rows = _rows(name)
     cats = {"cat_new": ["NEW", "u"], "cat_subset": ["v"], "cat_wide": WIDE}.get(name, ["u", "v"])
+    if name == "cat_mid":
+        cats = ["M%04d_%02d" % (base_id % 10000, i) for i in range(68)] + ["u", "v"]
+        rows = [tuple(cats[0] if x == "MID0" else x for x in r) for r in rows]
     data = {"a": pd.Series([r[0] for r in rows], dtype="int64"),
             "s": pd.Series([r[1] for r in rows], dtype=object),
             "c": pd.Categorical([r[2] for r in rows], categories=cats),
@@ -393,7 +400,7 @@ def run(point):
     if hist and isinstance(hist[-1]["rgo"], list):
         sig_step["rgo"] = "list"
     names = [o["frame"] for o in hist]
-    has_cat_change = any(o["frame"] in ("cat_new", "cat_subset", "cat_wide") for o in hist)
+    has_cat_change = any(o["frame"] in ("cat_new", "cat_subset", "cat_wide", "cat_mid") for o in hist)
     try:
         got, idx, pf, df = read_rows(path, widx, wide)
     except Exception as e:
